@@ -512,6 +512,11 @@ def left_stream(ctx, hexe, dexe, n_cases, quick):
         lower = lower_files(arpa, work, "c%d" % ci, ctx.rng) if ctx.rng.random() < 0.6 else None
         classes = "PRLTAQB" if lower else "PRTAQB"
         ops = gen_ops(case, ctx.rng, quick)
+        if not os.path.exists(hexe):
+            # the shared scratch cache keeps only a few tree builds: another check may have pruned ours meanwhile
+            ok, hexe2, lg = repo.harness("c08_left.cc", libs=True, config="asan")
+            if ok:
+                hexe = hexe2
         (rc1, o1, e1), (rc2, o2, e2) = run_case(hexe, dexe, path, lower, ops, case.mult, case.abits, classes)
         text = arpa.decode("utf-8", "replace")
         base = {"stream": "left", "arpa": text, "options": {"mult": case.mult, "abits": case.abits, "classes": classes},
